@@ -49,8 +49,9 @@ META = {
                     ('src/geophires_x/Model.py', 'Model.read_parameters'), ('src/geophires_x_client/__init__.py', 'GeophiresXClient.get_geophires_result')],
     'exhaustive': True,
 }
-GENERATORS = (paramtable.gen_paramtable,)
+GENERATORS = (paramtable.gen_paramtable, paramtable.gen_optiontable)
 REQ = ['Base.ParamRec', 'Model.RangeReader', 'Gen.ParamTable']
+TREQ = REQ + ['Model.TokenReader', 'Gen.OptionTable']
 LAYER_TAGS = ('min', 'max', 'below-min', 'above-max', 'non-member', 'fraction', 'far-above', 'member')
 
 # configuration families: an example of the repository per family, one key overridden per case
@@ -291,6 +292,139 @@ def client_layer(ctx):
                         expected='RuntimeError naming the parameter, no result file', observed=r)
 
 
+# ---------------------------------------------------------------------------------------------------------------
+# round 2: the text of a value - nan / inf, junk, blanks, other number notations, options, booleans
+# ---------------------------------------------------------------------------------------------------------------
+
+def tkey(layer, c):
+    return f'{layer}:{c["tag"]}:{c["kind"]}:{rp.OUTKIND[c["o"][0]]}:{c["cls"]}:{c["name"]}'
+
+
+def tjudge(ctx, layer, cases, compare_model):
+    """cases: dicts i, s, strict, o (observed, token vocabulary), tag, kind, cls, name -> verdicts evaluated in Coq"""
+    def body(fn, cs):
+        return lambda lo, hi: (f'run_tcases {fn} param_table [\n ' + ';\n '.join(
+            f'({c["i"]}%nat, {rp.tok_of(c["s"])}, {"true" if c["strict"] else "false"}, '
+            + ('None' if c.get('else_to') is None else f'Some ({c["else_to"]})%Z') + f', {rp.tout_lit(c["o"])})' for c in cs[lo:hi]) + ']')
+    both = '(fun t c => tcase_agrees t c && tcase_spec t c)' if compare_model else 'tcase_spec'
+    bad = fw.kernel_eval(ctx, layer + '-verdict', TREQ, body(both, cases), len(cases), shard=400) if cases else []
+    ctx.count(layer, evaluations=len(cases), nontrivial_keys=[(c.get('family'), c['cls'], c['name'], c['s']) for c in cases],
+              probes={t: sum(1 for c in cases if c['tag'] == t) for t in sorted({c['tag'] for c in cases})},
+              outcomes={k: sum(1 for c in cases if rp.OUTKIND[c['o'][0]] == k) for k in rp.OUTKIND.values()})
+    for c in cases[:1]:
+        ctx.sample(layer, {k: c[k] for k in ('cls', 'name', 'tag', 's')} | {'observed': str(c['o'])})
+    sub = [cases[k] for k in bad]
+    spec_bad = set(fw.kernel_eval(ctx, layer + '-spec', TREQ, body('tcase_spec', sub), len(sub), shard=400)) if compare_model and sub else set(range(len(sub)))
+    for j, c in enumerate(sub):
+        inp = {k: c[k] for k in ('cls', 'name', 'tag', 's', 'family', 'strict', 'kind') if c.get(k) is not None} | {'layer': layer}
+        what = (f'{c["cls"]}.{c["name"]} = {c["s"]!r} ({c["tag"]}, {layer}' + (f', family {c["family"]}' if c.get('family') else '')
+                + f'): {rp.OUTKIND[c["o"][0]]}' + (f' {c["o"][1]}' if len(c['o']) > 1 else ''))
+        if j in spec_bad:
+            ctx.violate('property', tkey(layer, c), what, inp=inp, observed=str(c['o']),
+                        expected='a value outside the documented range / set is rejected by an error that names the parameter; a member is accepted and used')
+        else:
+            ctx.violate('corr', 'model:' + tkey(layer, c), 'Coq model read_option and the implementation disagree: ' + what, inp=inp, observed=str(c['o']))
+
+
+def option_probes(r, o):
+    """texts for an option row: every member, one below, one above, a gap value, another notation of a member, junk, a blank"""
+    ms = sorted(o['members'])
+    gaps = [n for n in range(ms[0], ms[-1] + 1) if n not in ms][:1]
+    return ([('member', str(n)) for n in ms] + [('below', str(ms[0] - 1)), ('above', str(ms[-1] + 1))] + [('non-member', str(n)) for n in gaps]
+            + [('float-form', f'{ms[-1]}.0'), ('float-form', f'{ms[0]}e0'), ('text', 'junk'), ('text', o['enum']), ('blank', f' {ms[0]}'),
+               ('nan', 'nan'), ('inf', 'inf')])
+
+
+def token_layer(ctx):
+    model, srcs, rows, idx = live(ctx)
+    pkgs = {c.__name__: (pkg, c) for pkg, c in paramtable.module_classes()}
+    objs = dict(srcs)
+    opts = paramtable.option_rows()
+    bad = fw.kernel_eval(ctx, 'option-table', TREQ, lambda lo, hi: 'bad_options param_table option_table', len(opts), shard=len(opts))
+    ctx.count('option-table', evaluations=len(opts), nontrivial_keys=[(o['cls'], o['name']) for o in opts], strict=sum(o['strict'] for o in opts))
+    for k in bad:
+        o = opts[k]
+        ctx.violate('property', f'option-table:{o["cls"]}:{o["name"]}', f'{o["cls"]}.{o["name"]}: AllowableRange {rows[o["i"]]["runs"]} is not the set of '
+                    f'members of {o["enum"]} {o["members"]}: an accepted value has no option, or an option cannot be selected',
+                    inp={'layer': 'option-table', 'cls': o['cls'], 'name': o['name']})
+    kind = {'KFloat': 'float', 'KInt': 'int'}
+    rd, md = [], []
+    for cls, o_, name, p, i, r in numeric_params(ctx):          # nan / inf / junk for EVERY float and int parameter
+        for tag, s in (('nan', 'nan'), ('inf', 'inf'), ('-inf', '-inf'), ('text', 'junk')):
+            base = dict(i=i, s=s, strict=False, tag=tag, kind=kind[r['kind']], cls=cls, name=name)
+            rd.append(dict(base, o=rp.observe_tok_reader(p, name, s, model)))
+            if tag in ('nan', 'inf'):
+                md.append(dict(base, o=rp.observe_tok_module(*pkgs[cls], model, name, s)))
+    for o in opts:
+        p = objs[o['cls']].ParameterDict[o['name']]
+        for tag, s in option_probes(rows[o['i']], o):
+            base = dict(i=o['i'], s=s, tag=tag, kind='int', cls=o['cls'], name=o['name'])
+            rd.append(dict(base, strict=False, o=rp.observe_tok_reader(p, o['name'], s, model)))
+            md.append(dict(base, strict=o['strict'], else_to=o['else_to'], o=rp.observe_tok_module(*pkgs[o['cls']], model, o['name'], s)))
+    tjudge(ctx, 'tok-reader', rd, compare_model=True)
+    tjudge(ctx, 'tok-module', [c for c in md if c['kind'] == 'int'], compare_model=True)     # (float nan at module level: family layer)
+    # Model.read_parameters: options in every family, nan for a seeded sample of float parameters
+    strict_of = {(o['cls'], o['name']): o for o in opts}
+    jobs = []
+    for fam, kindf, base_text, parts in families():
+        if fam not in ('standard', 'SBT', 'SUTRA', 'AGS'):     # between them they activate every class that holds an option
+            continue
+        for cls in active_classes(kindf, base_text, ctx):
+            for o in opts:
+                if o['cls'] == cls:
+                    jobs += [dict(family=fam, base=base_text, cls=cls, name=o['name'], i=o['i'], s=s, tag=tag, kind='int', strict=o['strict'],
+                                  else_to=o['else_to']) for tag, s in option_probes(rows[o['i']], o) if tag != 'blank']  # (the tokenizer strips blanks)
+    nanj = [dict(family=j['family'], base=j['base'], cls=j['cls'], name=j['name'], i=j['i'], s='nan', tag='nan', kind='float', strict=False)
+            for j in family_jobs(ctx) if j['tag'] == 'min' and rows[j['i']]['kind'] == 'KFloat' and not j.get('alias') and j['kind'] == 'g']
+    ctx.rng.shuffle(nanj)
+    jobs += sorted(nanj[:ctx.n(150, 100000)], key=lambda j: (j['family'], j['cls'], j['name']))
+    res = pool_map(ctx, rp.family_read_tok, [('g', j['base'], j['name'], j['s'], str(ctx.scratch)) for j in jobs])
+    fam_cases, later = [], 0
+    for j, (cls, o) in zip(jobs, res):
+        if o[0] == 'E' and j['tag'] == 'member':
+            later += 1                      # a member the rest of the configuration cannot work with: not C07
+            continue
+        cls = cls if (cls, j['name']) in idx else j['cls']
+        oo = strict_of.get((cls, j['name']), j)
+        fam_cases.append(dict(j, cls=cls, i=idx[(cls, j['name'])], strict=oo['strict'], else_to=oo.get('else_to'), o=o))
+    ctx.count('tok-family', later_errors_for_members=later)
+    tjudge(ctx, 'tok-family', fam_cases, compare_model=False)
+
+
+BOOL_TEXTS = [('word', w) for w in ('0', '1', 'True', 'False', 'true', 'false', 'yes', 'No', 'n', 'Y', 't', 'F')] + \
+             [('junk', w) for w in ('maybe', 'FALSE', 'TRUE', 'off', '2', 'nan', '-1')]
+
+
+def bool_layer(ctx):
+    """every boolParameter x documented words and junk through the real ReadParameter"""
+    model, srcs, rows, idx = live(ctx)
+    cases = []
+    for cls, o in srcs:
+        for name, p in o.ParameterDict.items():
+            if rows[idx[(cls, name)]]['kind'] == 'KBool':
+                cases += [dict(cls=cls, name=name, tag=tag, s=s, b=rp.observe_bool(p, name, s, model)) for tag, s in BOOL_TEXTS]
+
+    def body(fn):
+        return lambda lo, hi: f'run_bcases {fn} [\n ' + ';\n '.join(
+            f'({paramtable.cs(c["s"])}, ' + ('None' if c['b'] is None else f'Some {"true" if c["b"] else "false"}') + ')' for c in cases[lo:hi]) + ']'
+    agree = fw.kernel_eval(ctx, 'bool-model', TREQ, body('bcase_agrees'), len(cases), shard=600, open_scope='string_scope')
+    spec = fw.kernel_eval(ctx, 'bool-spec', TREQ, body('bcase_spec'), len(cases), shard=600, open_scope='string_scope')
+    ctx.count('bool-reader', evaluations=len(cases), nontrivial_keys=[(c['cls'], c['name'], c['s']) for c in cases],
+              stored={str(k): sum(1 for c in cases if c['b'] is k) for k in (True, False, None)})
+    for k in spec:
+        c = cases[k]
+        out = 'raised' if c['b'] is None else f'accepted-{str(c["b"]).lower()}'
+        ctx.violate('property', f'bool-reader:{c["tag"]}:{out}:{c["cls"]}:{c["name"]}',
+                    f'{c["cls"]}.{c["name"]} = {c["s"]!r}: {out} (documented words: 0/1, true/false, t/f, yes/no, y/n)',
+                    inp={'layer': 'bool-reader', 'cls': c['cls'], 'name': c['name'], 's': c['s'], 'tag': c['tag']},
+                    expected='documented word -> that boolean; anything else rejected naming the parameter', observed=out)
+    for k in agree:
+        c = cases[k]
+        if k not in spec:
+            ctx.violate('corr', f'model:bool-reader:{c["cls"]}:{c["name"]}:{c["s"]}', f'Coq read_bool and ReadParameter disagree on {c["name"]} = {c["s"]!r}: {c["b"]}',
+                        inp={'layer': 'bool-reader', 'cls': c['cls'], 'name': c['name'], 's': c['s'], 'tag': c['tag']})
+
+
 def corpus_layer(ctx):
     """regression seeds: (class, parameter, sValue) triples, reader + module level"""
     model, srcs, rows, idx = live(ctx)
@@ -312,8 +446,8 @@ def corpus_layer(ctx):
 
 def correspondence(ctx, proofs_ok=True):
     import time
-    paramtable.build_gen(ctx)
-    for layer in (corpus_layer, table_layer, reader_layer, module_layer, family_layer, client_layer):
+    paramtable.build_gen(ctx, ('Gen/ParamTable.vo', 'Gen/OptionTable.vo'))
+    for layer in (corpus_layer, table_layer, reader_layer, module_layer, family_layer, client_layer, token_layer, bool_layer):
         t = time.time()
         layer(ctx)
         ctx.note(f'{layer.__name__}: {time.time() - t:.1f} s')
